@@ -99,7 +99,7 @@ _CKPT_RE = re.compile(r'^/exp/checkpoint_[0-9]{8}$')
 def plan(tier):
   if tier == 'quick':
     return {'runs': 96, 'budget_s': 420, 'per_run_timeout_s': 240,
-            'selftest_runs': 8, 'selftest_runs_full': 48, 'shrink_budget_s': 60}
+            'selftest_runs': 8, 'selftest_runs_full': 48, 'shrink_budget_s': 30}
   return {'runs': 2400, 'budget_s': 3000, 'per_run_timeout_s': 600,
           'selftest_runs': 16, 'selftest_runs_full': 96, 'shrink_budget_s': 120}
 
@@ -238,7 +238,7 @@ def _build(cfg, rec, fs, on_marker):
 
   class SamplerProxy(fedjax.client_samplers.ClientSampler):
     def __init__(self):
-      self.round = None
+      self.round = 0   # the real sampler's start_round_num
 
     def set_round_num(self, r):
       self.round = r
